@@ -305,6 +305,7 @@ Theorem to_integer_spec t skipws plus s base : 8 <= bits t -> 2 <= base <= 36 ->
   to_integer_m t skipws plus s base = Ok (gparse t skipws plus s base).
 Proof.
   intros Hbits Hb. unfold to_integer_m, gparse. rewrite (checker_ok t base Hbits Hb). cbn [rbind].
+  unfold to_integer_head.
   set (s1 := if skipws then drop_space s else s).
   assert (Hws : (if skipws then skip_ws_m s 0 else (s, 0%nat)) = (s1, (length s - length s1)%nat)).
   { subst s1. destruct skipws; [rewrite skip_ws_m_spec; reflexivity|f_equal; lia]. }
